@@ -174,6 +174,34 @@ def rule_r34(chk, prog, paths):
             popv = t.elts[0].id if isinstance(t, ast.Tuple) else t.id
     if popv is None:
         raise AnalysisError('substitute: popped variable not found')
+    # names of the frame stack ([[]]), the rebuilt node and the changed flag
+    frames = None
+    rebuilt = None
+    for st in walk_no_nested(f):
+        if isinstance(st, ast.Assign) and isinstance(
+                st.targets[0], ast.Name):
+            v = st.value
+            if isinstance(v, ast.List) and len(v.elts) == 1 and isinstance(
+                    v.elts[0], ast.List) and not v.elts[0].elts:
+                frames = st.targets[0].id
+            if isinstance(v, ast.Call) and call_name(v) == 'Node' and any(
+                    isinstance(a, ast.Starred) for a in v.args):
+                rebuilt = st.targets[0].id
+    flag = None
+    for st in walk_no_nested(f):
+        if isinstance(st, ast.If) and isinstance(
+                st.test, ast.UnaryOp) and isinstance(
+                    st.test.op, ast.Not) and isinstance(
+                        st.test.operand, ast.Name) and len(
+                            st.body) == 1 and isinstance(
+                                st.body[0], ast.Return) and unparse(
+                                    st.body[0].value) == base:
+            flag = st.test.operand.id
+    if frames is None or flag is None:
+        raise AnalysisError('substitute: frame stack ([[]]) or the '
+                            '"if not <changed>: return <input>" exit not '
+                            'found')
+    rebuilt = rebuilt or 'node'
     n_it = 0
     for p in paths:
         if p.end is not head:
@@ -186,7 +214,7 @@ def rule_r34(chk, prog, paths):
         n_it += 1
         desc = describe_path(p)
         emits = [(i, n, c) for (i, n, c) in path_method_calls(
-            p, attr='append') if unparse(c.func.value) == 'args[-1]']
+            p, attr='append') if unparse(c.func.value) == f'{frames}[-1]']
         pushes = [(i, n, c) for (i, n, c) in path_method_calls(p)
                   if unparse(c.func.value) == work
                   and c.func.attr in ('append', 'extend')]
@@ -214,7 +242,7 @@ def rule_r34(chk, prog, paths):
             ok = len(emits) == 0
             txt = ' ; '.join(unparse(c) for (i, n, c) in pushes)
             ok = ok and f'reversed({popv}.data)' in txt and any(
-                unparse(c.func.value) == 'args' and c.func.attr == 'append'
+                unparse(c.func.value) == frames and c.func.attr == 'append'
                 for (i, n, c) in path_method_calls(p))
             chk.check('C11.R4', where, f'{desc}: descent', ok,
                       'descent must push the node marker, all children in '
@@ -232,8 +260,8 @@ def rule_r34(chk, prog, paths):
                 continue
             before = set(facts_before(p, i))
             # a freshly built node: must have been compared with the original
-            ok = (f'node == {popv}', False) in before or (
-                f'{popv} == node', False) in before
+            ok = (f'{rebuilt} == {popv}', False) in before or (
+                f'{popv} == {rebuilt}', False) in before
             if isinstance(a, ast.Name) or (isinstance(a, ast.Call)
                                            and call_name(a) == 'Node'):
                 if id_hit or any(t == f'{popv} in {repl}' and pol
@@ -253,7 +281,7 @@ def rule_r34(chk, prog, paths):
                    and pol for (t, pol) in p.facts)
         if took:
             chk.check('C11.R3', where, f'{desc}: changed flag',
-                      p.env.get('changed') is True,
+                      p.env.get(flag) is True,
                       'a replacement happened but the "changed" flag is not '
                       'set: the unchanged input would be returned',
                       loc=m.loc(loop), nontrivial=True)
@@ -265,7 +293,7 @@ def rule_r34(chk, prog, paths):
         if n.kind == 'stmt' and isinstance(n.ast, ast.Return) and isinstance(
                 n.ast.value, ast.Name) and n.ast.value.id == base:
             facts = IN.get(n) or frozenset()
-            if ('changed', False) in facts:
+            if (flag, False) in facts:
                 ok = True
     chk.check('C11.R3', where, 'unchanged input returned as is', ok,
               f'no "return {base}" dominated by "not changed": apply_simp '
